@@ -229,6 +229,31 @@ def audit_props(prop):
     return res
 
 
+def coqchk_props(prop, timeout=1500):
+    """Thorough tier: re-check Props/<prop>.vo and everything it depends on
+    with the independent checker and read its context summary."""
+    try:
+        r = subprocess.run(["coqchk", "-silent", "-o", "-Q", COQ, "Verif",
+                            "Verif.Props." + prop], capture_output=True,
+                           text=True, timeout=timeout, cwd=COQ)
+    except subprocess.TimeoutExpired:
+        return dict(ok=False, error="coqchk timed out after %ss" % timeout)
+    out = r.stdout + r.stderr
+    res = dict(ok=(r.returncode == 0), returncode=r.returncode)
+    for key, label in (("axioms", "Axioms"),
+                       ("type_in_type", "Constants/Inductives relying on type-in-type"),
+                       ("unsafe_fixpoints", "Constants/Inductives relying on unsafe (co)fixpoints"),
+                       ("assumed_positivity", "Inductives whose positivity is assumed")):
+        m = re.search(r"\* " + re.escape(label) + r":(.*?)(?=\n\* |\Z)", out,
+                      re.S)
+        txt = m.group(1).strip() if m else "?"
+        res[key] = [] if txt == "<none>" else [t.strip() for t in
+                                                txt.split("\n") if t.strip()]
+    if r.returncode != 0:
+        res["error"] = out[-800:]
+    return res
+
+
 # --------------------------------------------------------------------------
 # evaluating the model inside Coq
 # --------------------------------------------------------------------------
